@@ -79,6 +79,18 @@ func (u *UseCase) UpdateTx(ctx context.Context, oldTxId, newTxId string, filter 
 		newTx.Unlock()
 	}()
 
+	// The conflict check above ran under the read lock only, so another commit
+	// or autocommit write may have been published since. Check again now that
+	// publication is exclusive.
+	if filter.BeforeSeq != nil {
+		for _, f := range files {
+			if newTx.File(f.Key).Latest().Seq.After(*filter.BeforeSeq) {
+				err = fs_db.ErrTxSerialization
+				return
+			}
+		}
+	}
+
 	err = u.fileRepo.RunTransaction(ctx, func(ctx context.Context) error {
 		for i := range files {
 			files[i].Seq = sequence.Next()
